@@ -37,7 +37,23 @@ FAMILIES = {
         ],
         "tiers": {"quick": {"rand": 200, "rlen": 60, "chunks": 8}, "thorough": {"rand": 5000, "rlen": 80, "chunks": 14}},
     },
+    "sp": {
+        "fix_all": ["ref", "space", "gaugeid", "sizes"],
+        "mc": {"module": "MCSP", "cfg": {"quick": "SP-mc-pay-quick.cfg", "thorough": ["SP-mc-pay-quick.cfg"]},
+               "timeout": {"quick": 400, "thorough": 1800}},
+        "sim": {"module": "SimSP", "cfg": "SP-sim.cfg",
+                "tiers": {"quick": {"num": 100, "depth": 40, "workers": 4}, "thorough": {"num": 2000, "depth": 50, "workers": 8, "timeout": 2400}}},
+        "trace_module": "SPTrace", "trace_cfg": "SP-trace.cfg",
+        "vh_cfg": {},
+        "tiers": {"quick": {"rand": 300, "rlen": 50, "chunks": 8}, "thorough": {"rand": 6000, "rlen": 60, "chunks": 14}},
+    },
 }
+
+SP_ASSUME = COMMON_ASSUME + [
+    "block boundaries are executed at keeper level (storage.BeginBlocker on a cache context); block times are whole hours after the base block",
+    "sizes are multiples of 10^6 bytes; storage price parameter 1 USD/TB/month so that every amount and amount*ticks product fits TLC's 32-bit integers",
+    "the chain's tariff (GetStorageCost / UpgradeStorage / GetStorageCostKbs, exported keeper methods evaluated in the same state) is an input",
+]
 
 SD_ASSUME = COMMON_ASSUME + [
     "block boundaries are executed at keeper level (storage.BeginBlocker on a cache context with height+1 and time+1 day)",
@@ -114,5 +130,27 @@ PROPS = {
         "rule": "non-trivial = a step that changes the file set, a prover list or a proof record; "
                 "distinct = distinct (pre-state, message, post-state) triples",
         "assumptions": SD_ASSUME,
+    },
+    "C04": {
+        "family": "sp", "formulas": ["C04_Buy", "C04_PayOnce", "C04_Other"], "nt": "C04",
+        "mc_cfg": {"quick": ["SP-mc-pay-quick.cfg"], "thorough": ["SP-mc-pay-quick.cfg", "SP-mc-space-quick.cfg"]},
+        "bug_variants": [("ref", ["PC04"], "SP-mc-pay-quick.cfg"), ("gaugeid", ["PC04"], "SP-mc-pay-quick.cfg")],
+        "rule": "non-trivial = a plan purchase or pay-once post (successful or refused); distinct = distinct (pre-state, message, post-state) triples",
+        "assumptions": SP_ASSUME,
+    },
+    "C07": {
+        "family": "sp", "formulas": ["C07_Used", "C07_Reject"], "nt": "C07",
+        "mc_cfg": {"quick": ["SP-mc-space-quick.cfg"], "thorough": ["SP-mc-space-quick.cfg"]},
+        "bug_variants": [("space", ["C07_Used", "PC07"], "SP-mc-space-quick.cfg"), ("sizes", ["C07_Used", "PC07"], "SP-mc-space-neg.cfg")],
+        "rule": "non-trivial = a post or delete by an account that holds a plan, or a reward block in which the chain drops a file; "
+                "distinct = distinct (pre-state, message, post-state) triples",
+        "assumptions": SP_ASSUME,
+    },
+    "C12": {
+        "family": "sp", "formulas": ["C12_Gauges"], "nt": "C12",
+        "mc_cfg": {"quick": ["SP-mc-pay-quick.cfg"], "thorough": ["SP-mc-pay-quick.cfg"]},
+        "bug_variants": [("gaugeid", ["PC12"], "SP-mc-pay12.cfg")],
+        "rule": "non-trivial = a reward block while some gauge account holds tokens; distinct = distinct (pre-state, block, post-state) triples",
+        "assumptions": SP_ASSUME,
     },
 }
